@@ -421,6 +421,12 @@ def id_world(sc: Dict[str, Any]) -> Tuple[Dict[str, Any], Dict[str, Any]]:
     byname = {"LR": LR, "LS": LS, "LO": LO, "LE": LE}
     for loc in sc["defs"]:
         add(byname[loc], kind.target(loc, X_ID, "T@" + loc, "t_X"))
+    for loc in sc.get("dormant", []):
+        # an object of the target type under another ID (the re-resolution phase gives it the ID X later)
+        add(byname[loc], kind.target(loc, X_ID + "_dormant", "T@" + loc, "t_X"))
+    if sc.get("filler"):
+        for L, l in byname.items():
+            add(l, {"ddds": [aux_dop(L, "fill")]})  # every layer has a data dictionary (objects can be moved into it)
     for imp in sc["imports"]:
         byname[imp]["imports"] = [copy.deepcopy(IMPORT_REF)]
     ref: Dict[str, Any] = {"ref": X_ID}
@@ -529,6 +535,8 @@ def id_cells(quick: bool) -> List[Dict[str, Any]]:
                                 continue
                             if imps:
                                 cell["core_only"] = True
+                        elif len(imps) > 1:
+                            cell["core_only"] = True  # thorough: several importers at once only for the core kinds
                         cells.append(cell)
     if not quick:
         # the referrer is a layer of another type (each type has its own raw class and resolution code path)
@@ -1211,10 +1219,253 @@ def _s_unit(scs: List[Dict[str, Any]]) -> Part:
 
 
 # ---------------------------------------------------------------------------------------------
+# family (R): re-resolution -- edit the loaded database, refresh(), compare with the model of the edited description
+# ---------------------------------------------------------------------------------------------
+# Database.refresh() is the documented way to make in-memory changes effective.  For every base configuration every single
+# edit of a small menu is applied to the LOADED objects:  remove a target / give a target another ID / give a dormant object
+# the ID X / move a target into another layer (document fragment).  After refresh() the probe reference must be bound as the
+# reference model says for the EDITED description (in particular: fail if X no longer exists where it is looked up) and as a
+# database freshly loaded from the edited description; after undoing the edit and refreshing again it must be back.
+R_KINDS_QUICK = ["param/DOP-REF", "service/REQUEST-REF", "table-key/TABLE-ROW-REF"]
+R_KINDS = ["param/DOP-REF", "service/REQUEST-REF", "table-key/TABLE-ROW-REF", "mux-case/STRUCTURE-REF", "service/FUNCT-CLASS-REF",
+           "env-data-desc/ENV-DATA-REF", "table-struct/TABLE-KEY-REF", "diag-comms/DIAG-COMM-REF"]
+# (not TABLE-REF: the rows of a TABLE refer back to the table's ID, an ID edit of the table alone would leave the description
+# inconsistent)
+
+
+def find_holder(root: Any, marker: str) -> Optional[Tuple[Any, int, Any, Tuple[Any, ...]]]:
+    """locate the object with LONG-NAME == marker below a raw layer: -> (containing list, index, object, attribute path)"""
+    import dataclasses
+    seen = set()
+    found: List[Tuple[Any, int, Any, Tuple[Any, ...]]] = []
+
+    def walk(o: Any, path: Tuple[Any, ...], depth: int) -> None:
+        if depth > 8 or id(o) in seen:
+            return
+        seen.add(id(o))
+        if isinstance(o, list):
+            for i, x in enumerate(o):
+                if getattr(x, "long_name", None) == marker and hasattr(x, "odx_id"):
+                    found.append((o, i, x, path))
+            for i, x in enumerate(o):
+                walk(x, path + (i,), depth + 1)
+        elif dataclasses.is_dataclass(o) and not isinstance(o, type):
+            for f in dataclasses.fields(o):
+                v = getattr(o, f.name, None)
+                if isinstance(v, list) or (dataclasses.is_dataclass(v) and not isinstance(v, type)):
+                    walk(v, path + (f.name,), depth + 1)
+    walk(root, (), 0)
+    # the defining collection is the one closest to the layer (an ENV-DATA-DESC also lists its resolved ENV-DATAs in a field)
+    return min(found, key=lambda h: len(h[3])) if found else None
+
+
+def follow(root: Any, path: Tuple[Any, ...]) -> Any:
+    o = root
+    for step in path:
+        if isinstance(step, int):
+            return None  # nested targets (table rows, parameters, DTCs) are not moved
+        o = getattr(o, step, None)
+        if o is None:
+            return None
+    return o if isinstance(o, list) else None
+
+
+def r_edits(sc: Dict[str, Any]) -> List[Dict[str, Any]]:
+    defs, dormant = sc["defs"], sc.get("dormant", [])
+    free = [l for l in LOCS if l not in defs and l not in dormant]
+    out: List[Dict[str, Any]] = []
+    for l in defs:
+        out.append({"op": "remove", "loc": l})
+        out.append({"op": "id-away", "loc": l})
+        for m in free:
+            out.append({"op": "move", "loc": l, "to": m})
+    for l in dormant:
+        out.append({"op": "id-to", "loc": l})
+    return out
+
+
+def r_edited_sc(sc: Dict[str, Any], ed: Dict[str, Any]) -> Dict[str, Any]:
+    defs, dormant = list(sc["defs"]), list(sc.get("dormant", []))
+    op, l = ed["op"], ed["loc"]
+    if op == "remove":
+        defs.remove(l)
+    elif op == "id-away":
+        defs.remove(l)
+        dormant.append(l)
+    elif op == "id-to":
+        dormant.remove(l)
+        defs.append(l)
+    elif op == "move":
+        defs.remove(l)
+        defs.append(ed["to"])
+    return dict(sc, defs=[x for x in LOCS if x in defs], dormant=[x for x in LOCS if x in dormant])
+
+
+def r_apply(db: Any, ed: Dict[str, Any]) -> Optional[Callable[[], None]]:
+    """apply the edit to the loaded objects; -> undo function (None: the edit is not applicable to this kind of target)"""
+    from odxtools.odxlink import OdxLinkId
+    layer = db.diag_layers[ed["loc"]]
+    h = find_holder(layer.diag_layer_raw, "T@" + ed["loc"])
+    if h is None:
+        raise KeyError("target object of layer %s not found" % ed["loc"])
+    lst, idx, obj, path = h
+    op = ed["op"]
+    old_id, old_ln = obj.odx_id, obj.long_name
+    if op == "remove":
+        lst.pop(idx)
+        return lambda: lst.insert(idx, obj)
+    if op in ("id-away", "id-to"):
+        obj.odx_id = OdxLinkId(X_ID if op == "id-to" else X_ID + "_dormant", old_id.doc_fragments)
+
+        def undo_id() -> None:
+            obj.odx_id = old_id
+        return undo_id
+    dest_layer = db.diag_layers[ed["to"]]
+    dest = follow(dest_layer.diag_layer_raw, path)
+    if dest is None:
+        return None
+    lst.pop(idx)
+    obj.odx_id = OdxLinkId(old_id.local_id, dest_layer.odx_id.doc_fragments)
+    obj.long_name = "T@" + ed["to"]
+    dest.append(obj)
+
+    def undo_move() -> None:
+        dest.pop(len(dest) - 1)
+        obj.odx_id, obj.long_name = old_id, old_ln
+        lst.insert(idx, obj)
+    return undo_move
+
+
+def r_refresh(db: Any) -> Optional[BaseException]:
+    import odxtools.exceptions as oe
+    old = oe.strict_mode
+    oe.strict_mode = True
+    try:
+        db.refresh()
+        return None
+    except Exception as e:  # noqa: BLE001
+        return e
+    finally:
+        oe.strict_mode = old
+
+
+def r_key(sc: Dict[str, Any], ed: Dict[str, Any], phase: str, mode: str, expected: Tuple[str, str], got: Any) -> str:
+    exp = loc_class(expected[1]) if expected[0] == "BIND" else "error"
+    return f"C10/refresh/{ed['op']}{phase}/{sc['form']}/{mode}/expected={exp}/bound={loc_class(got)}"
+
+
+def run_r_config(sc: Dict[str, Any], cache: Optional[Dict[Any, Any]] = None, only: Optional[List[Dict[str, Any]]] = None
+                 ) -> List[Tuple[Dict[str, Any], str, Tuple[str, str], Optional[Tuple[str, str]], str, List[Dict[str, Any]]]]:
+    """-> [(edit, phase, expected, failure, observed, edits applied to this database object so far incl. this one)]
+    All edits of the menu are applied one after the other (each undone again) to ONE loaded database -- state that survives a
+    refresh() is exactly what this phase is about; after a failure the next edit starts from a fresh load.
+    only: replay exactly this edit sequence."""
+    cache = {} if cache is None else cache
+    kind = KIND[sc["kind"]]
+
+    def fresh(sc2: Dict[str, Any]) -> Tuple[Tuple[str, str], str]:
+        k = (sc2["kind"], sc2["form"], tuple(sc2["defs"]), tuple(sc2.get("dormant", [])), tuple(sc2["imports"]))
+        if k not in cache:
+            exp, _, obs = run_id_scenario(sc2)
+            cache[k] = (exp, obs)
+        return cache[k]
+
+    def look(db: Any, err: Optional[BaseException]) -> str:
+        if err is not None:
+            return "raised:" + type(err).__name__
+        try:
+            return "bound:" + str(marker_of(kind.observe(db.diag_layers["LR"])))
+        except Exception as e:  # noqa: BLE001
+            return f"bound:<unobservable: {type(e).__name__}: {e}>"
+
+    results: List[Tuple[Dict[str, Any], str, Tuple[str, str], Optional[Tuple[str, str]], str, List[Dict[str, Any]]]] = []
+    base_exp, base_obs = fresh(sc)
+    db: Any = None
+    history: List[Dict[str, Any]] = []
+    for ed in (only if only else r_edits(sc)):
+        if db is None:
+            history = []
+            db, err0 = try_load(id_world(sc)[0])
+            if db is None:
+                # the base description does not load (its probe is dangling): edit the objects of a loadable twin in which
+                # the probe is fragment-relative, then point the probe where this configuration wants it -- not possible
+                # without touching private state, so such base configurations are only used through their edited partners
+                return results
+        undo = r_apply(db, ed)
+        if undo is None:
+            continue
+        history.append(ed)
+        sc2 = r_edited_sc(sc, ed)
+        exp, fresh_obs = fresh(sc2)
+        err = r_refresh(db)
+        obs = look(db, err)
+        fail = judge(exp, err is None, observed_marker(obs), err)
+        if fail is None and exp[0] != "DONTCARE" and obs.split(":")[0] != fresh_obs.split(":")[0]:
+            fail = ("differs-from-fresh-load", f"after the edit and refresh(): {obs}; a database loaded from the edited description: {fresh_obs}")
+        results.append((ed, "", exp, fail, obs, list(history)))
+        undo()
+        err = r_refresh(db)
+        obs = look(db, err)
+        fail = judge(base_exp, err is None, observed_marker(obs), err)
+        results.append((ed, "/undone", base_exp, fail, obs, list(history)))
+        if err is not None or fail is not None or results[-2][3] is not None:
+            db = None
+    return results
+
+
+def r_configs(quick: bool) -> List[Dict[str, Any]]:
+    out = []
+    for kind in (R_KINDS_QUICK if quick else R_KINDS):
+        for form in FORMS:
+            for imps, s_first in (([], False), (["LR"], False)) + (() if quick else ((["LS"], True),)):
+                for defs in subsets_of(LOCS):
+                    free = [l for l in LOCS if l not in defs]
+                    for dormant in [[]] + ([[free[0]]] if quick and free else [[l] for l in free]):
+                        out.append({"kind": kind, "form": form, "defs": defs, "dormant": dormant, "imports": imps, "s_first": s_first,
+                                    "cb_first": False, "filler": True})
+    return out
+
+
+def r_unit(scs: List[Dict[str, Any]]) -> Part:
+    try:
+        return _r_unit(scs)
+    finally:
+        cleanup_scratch()
+
+
+def _r_unit(scs: List[Dict[str, Any]]) -> Part:
+    part = Part()
+    cache: Dict[Any, Any] = {}
+    for sc in scs:
+        part.count("refresh_configurations")
+        for ed, phase, expected, fail, observed, history in run_r_config(sc, cache):
+            part.count("evaluations")
+            part.count("refresh_checks")
+            part.count("expect_" + expected[0].lower())
+            part.add("refresh_outcome_classes", (ed["op"], phase, expected[0], observed.split(":")[0]))
+            part.add("nontrivial", digest((sc["kind"], sc["form"], sc["defs"], sc["dormant"], sc["imports"], ed, phase, expected[0],
+                                           observed.split(":")[0])))
+            if fail is not None:
+                part.violation(r_key(sc, ed, phase, fail[0], expected, observed_marker(observed)), {"family": "R", "sc": sc, "edits": history},
+                               f"{sc['kind']}: edit {ed} then refresh(){' then undo and refresh()' if phase else ''}: {fail[1]} [{describe(sc)}, "
+                               f"dormant object in {sc['dormant'] or 'no layer'}]")
+    return part
+
+
+# ---------------------------------------------------------------------------------------------
 # run / replay
 # ---------------------------------------------------------------------------------------------
 def chunks(xs: List[Any], n: int) -> List[List[Any]]:
     return [xs[i::n] for i in range(n) if xs[i::n]]
+
+
+def sweep_stale_scratch() -> None:
+    """remove scratch directories of C10 worker processes which no longer exist (workers that were terminated in mid-unit)"""
+    import glob
+    for d in glob.glob("/dev/shm/odxverif_c10_*") + glob.glob(os.path.join(tempfile.gettempdir(), "odxverif_c10_*")):
+        pid = d.rsplit("_", 1)[1]
+        if pid.isdigit() and not os.path.isdir("/proc/" + pid):
+            shutil.rmtree(d, ignore_errors=True)
 
 
 def run(ctx: Ctx) -> None:
@@ -1222,6 +1473,7 @@ def run(ctx: Ctx) -> None:
         _run(ctx)
     finally:
         cleanup_scratch()
+        sweep_stale_scratch()
 
 
 def _run(ctx: Ctx) -> None:
@@ -1245,6 +1497,18 @@ def _run(ctx: Ctx) -> None:
     pmap(ctx, d_unit, chunks(dscs, 32))
     pmap(ctx, s_unit, chunks(sscs, 96))
     pmap(ctx, id_unit, [(c, kinds) for c in chunks(cells, 96)])
+    rcfg = r_configs(ctx.quick)
+    ctx.bounds["refresh"] = {"kinds": R_KINDS_QUICK if ctx.quick else R_KINDS, "forms": list(FORMS),
+                             "edits": ["remove", "id-away", "id-to", "move"], "configurations": len(rcfg)}
+    # units keep (kind, form, imports) together so that the fresh loads of the edited descriptions are shared
+    groups: Dict[Any, List[Dict[str, Any]]] = {}
+    for c in rcfg:
+        groups.setdefault((c["kind"], c["form"], tuple(c["imports"]), len(c["defs"]) % 2), []).append(c)
+    pmap(ctx, r_unit, list(groups.values()))
+    rr = ctx.sets.get("refresh_outcome_classes", set())
+    ctx.guard("refresh after removing a target fails where it must and rebinds where another definition takes over",
+              ("remove", "", "FAIL", "raised") in rr and ("remove", "", "BIND", "bound") in rr)
+    ctx.guard("refresh after a move / an ID change binds to the new object", ("move", "", "BIND", "bound") in rr and ("id-to", "", "BIND", "bound") in rr)
     oc = ctx.sets.get("outcome_classes", set())
     ctx.guard("references that must bind and do bind were seen", ("BIND", "bound") in oc)
     ctx.guard("references that must fail and do fail were seen", ("FAIL", "raised") in oc)
@@ -1282,6 +1546,10 @@ def _replay(case: Any) -> List[Tuple[str, str]]:
         expected, fail, observed = run_d_scenario(sc)
         if fail is not None:
             out.append((d_key(sc, fail[0], expected, observed_marker(observed)), f"{sc['kind']}: {fail[1]} [{sc}]"))
+    elif fam == "R":
+        for ed, phase, expected, fail, observed, _ in run_r_config(sc, None, case["edits"]):
+            if fail is not None:
+                out.append((r_key(sc, ed, phase, fail[0], expected, observed_marker(observed)), f"{sc['kind']}: edit {ed}{phase}: {fail[1]}"))
     elif fam == "S":
         for phase, expected, fail, observed in run_s_scenario(sc):
             if fail is not None:
@@ -1295,7 +1563,7 @@ def case_files(case: Any) -> List[Tuple[str, str]]:
     [print(n, x, sep='\\n') for n, x in c10.case_files(json.load(open(sys.argv[1]))['case'])]" replays/C10/<file>.json"""
     sc = case["sc"]
     fam = case.get("family")
-    if fam == "I":
+    if fam in ("I", "R"):
         world = id_world(sc)[0]
     elif fam == "D":
         world = d_world(sc)[0]
